@@ -14,6 +14,7 @@ import traceback
 
 import z3
 
+from mirsym import mir
 from mirsym.core import Adt, Opaque, Panic, PMap, PVec, SymStr, Unsupported, dv, lit, zand, zor, znot, zbool
 from mirsym.models import BASE_MODELS, val_eq
 from mirsym.runner import Check, Inconclusive, replay
@@ -261,7 +262,7 @@ class TableRun:
 
     def check_err(self, pc, assume, order, rq, r):
         chk = self.chk
-        _, st, allow, err = r
+        _, st, allow, err, sent = r
         self.errs.append((rq, z3.And(*pc) if pc else z3.BoolVal(True), assume, st, [a for a in allow if isinstance(a, str)]))
         if self.which == 'C11': return
         if self.which == 'C01':
@@ -283,6 +284,11 @@ class TableRun:
                                    f'{m.eval(want405, model_completion=True)}', lambda nat: nat.get('err', {}).get('status') == st)
             names = [a for a in allow if isinstance(a, str)]
             odd = [a for a in allow if not isinstance(a, str)]
+            if sent is not None and sorted(map(str, sent)) != sorted(names):
+                # the response built from the error must carry the same Allow values as the error itself
+                m = chk.prove(self.name(f'allow-sent-as-computed/{order}/k{rq.k}'), pc, z3.BoolVal(True), extra=assume)
+                self.report_lookup(m, order, rq, f'the error lists Allow={names} but its response carries Allow={sent}',
+                                   lambda nat: sorted(nat.get('err', {}).get('allow_sent', [])) != sorted(nat.get('err', {}).get('allow', [])))
             if st == 404 and allow:
                 m = chk.prove(self.name(f'404-no-allow/{order}/k{rq.k}'), pc, z3.BoolVal(True), extra=assume)
                 self.report_lookup(m, order, rq, f'404 carries headers {allow}', lambda nat: bool(nat.get('err', {}).get('allow')))
@@ -550,9 +556,10 @@ def _worker(idx):
 
 def run(which, tier, replay_file=None, before_finish=None):
     chk = Check(which, tier)
-    ex = chk.load(vermodel.MODELS + RL.ROUTER_MODELS + BASE_MODELS)
+    ex = chk.load(vermodel.MODELS + RL.ROUTER_MODELS + (httpmodel.MODELS if which == 'C04' else []) + BASE_MODELS)
     ex.const_models.append(httpmodel.const_model)
     R = RL.Router(chk, ex)
+    RL.Ctx.into_response = mir.find(ex.fns, r'error::<impl at [^>]*>::into_response$') if which == 'C04' else None
     from mirsym.runner import replay_bin
     replay_bin()
     tables = family(tier, chk.seed)
